@@ -439,6 +439,17 @@ func (ft *FuncTr) applyContract(st *State, at *Term, in ssa.Instruction, name st
 		ft.assert(at, t, "call.requires", short+"/"+clauseID(r, i), r.Text, pos)
 	}
 	// havoc
+	if con.ModAll {
+		// `modifies *`: every heap cell may have changed (a new heap epoch; the lock state is kept, as for abstracted calls)
+		if ft.ownMod != nil {
+			ft.assert(at, TFalse, "frame", "*/"+short, "callee may write everything, which this function's modifies clause does not allow", pos)
+		}
+		oldN := ft.h.nextID(st)
+		ft.h.havocAll(st)
+		nxA := ft.d.Fresh("g_next_m", SInt)
+		ft.assume(at, Le(oldN, nxA))
+		st.ghost["$next"] = nxA
+	}
 	ms, err := ft.w.modsOfCall(ft.h, envPre, name, con, fn, map[string]bool{})
 	if err != nil {
 		return Val{}, err
